@@ -9,8 +9,12 @@ namespace SharkVerif.NN
 
 /-- the distance the query assigns to point `i`: `m_squaredPtDistance` of the
 (first) leaf whose slice of the index list contains `i` -/
+def entryDist? : List Leaf → Nat → Option Rat
+  | [], _ => none
+  | e :: es, i => if i ∈ e.pts then some e.d else entryDist? es i
+
 def leafDist? : TTree → Nat → Option Rat
-  | .leaf _ _ lf, i => if i ∈ lf.pts then some lf.d else none
+  | .leaf _ _ es, i => entryDist? es i
   | .node _ _ _ l r, i => match leafDist? l i with
     | some d => some d
     | none => leafDist? r i
@@ -20,17 +24,53 @@ def leafDist (t : TTree) (i : Nat) : Rat := (leafDist? t i).getD 0
 /-- every leaf's stored distance is the true distance of one of its points (the
 real code: of `index(0)`); in particular no leaf is empty -/
 def LeafAnchored (dist : Nat → Rat) : TTree → Prop
-  | .leaf _ _ lf => ∃ p ∈ lf.pts, dist p = lf.d
+  | .leaf _ _ es => es ≠ [] ∧ ∀ e ∈ es, ∃ p ∈ e.pts, dist p = e.d
   | .node _ _ _ l r => LeafAnchored dist l ∧ LeafAnchored dist r
 
+theorem entryDist?_none : ∀ (es : List Leaf) (i : Nat), i ∉ qpts es → entryDist? es i = none
+  | [], _, _ => rfl
+  | e :: es, i, h => by
+    simp only [qpts, List.flatMap_cons, List.mem_append, not_or] at h
+    simp [entryDist?, h.1, entryDist?_none es i (by simpa [qpts] using h.2)]
+
+/-- the entry that answers for `i` -/
+theorem entryDist?_some : ∀ (es : List Leaf) (i : Nat), i ∈ qpts es →
+    ∃ e ∈ es, i ∈ e.pts ∧ entryDist? es i = some e.d
+  | [], i, h => by simp [qpts] at h
+  | e :: es, i, h => by
+    by_cases c : i ∈ e.pts
+    · exact ⟨e, List.mem_cons_self .., c, by simp [entryDist?, c]⟩
+    · have h' : i ∈ qpts es := by
+        simp only [qpts, List.flatMap_cons, List.mem_append] at h
+        rcases h with h | h
+        · exact absurd h c
+        · simpa [qpts] using h
+      obtain ⟨e', he', hi, hd⟩ := entryDist?_some es i h'
+      exact ⟨e', List.mem_cons_of_mem _ he', hi, by simp [entryDist?, c, hd]⟩
+
+/-- with pairwise disjoint entries, every entry answers for all its points -/
+theorem entryDist?_of_mem : ∀ (es : List Leaf), (qpts es).Nodup → ∀ e ∈ es, ∀ p ∈ e.pts,
+    entryDist? es p = some e.d
+  | [], _, e, he, _, _ => by simp at he
+  | e0 :: es, hn, e, he, p, hp => by
+    have hn' : (e0.pts ++ qpts es).Nodup := by simpa [qpts] using hn
+    have hd := List.nodup_append.mp hn'
+    rcases List.mem_cons.mp he with rfl | he'
+    · simp [entryDist?, hp]
+    · have hq : p ∈ qpts es := mem_qpts.mpr ⟨e, he', hp⟩
+      have : p ∉ e0.pts := fun h0 => hd.2.2 p h0 p hq rfl
+      simp [entryDist?, this, entryDist?_of_mem es hd.2.1 e he' p hp]
+
 theorem leafDist?_none : ∀ (t : TTree) (i : Nat), i ∉ t.pts → leafDist? t i = none
-  | .leaf _ _ lf, i, h => by simp [leafDist?, TTree.pts] at *; exact h
+  | .leaf _ _ es, i, h => by simpa [leafDist?] using entryDist?_none es i (by simpa [TTree.pts] using h)
   | .node _ _ _ l r, i, h => by
     simp only [TTree.pts, List.mem_append, not_or] at h
     simp [leafDist?, leafDist?_none l i h.1, leafDist?_none r i h.2]
 
 theorem leafDist?_some : ∀ (t : TTree) (i : Nat), i ∈ t.pts → ∃ d, leafDist? t i = some d
-  | .leaf _ _ lf, i, h => by simp [leafDist?, TTree.pts] at *; exact h
+  | .leaf _ _ es, i, h => by
+    obtain ⟨e, _, _, hd⟩ := entryDist?_some es i (by simpa [TTree.pts] using h)
+    exact ⟨e.d, by simpa [leafDist?] using hd⟩
   | .node _ _ _ l r, i, h => by
     simp only [TTree.pts, List.mem_append] at h
     by_cases hl : i ∈ l.pts
@@ -52,10 +92,12 @@ theorem leafDist_right {st lb gl} (l r : TTree) (i : Nat) (h : i ∉ l.pts) :
 /-- the leaf distance of a point of the tree is the true distance of some point of the tree -/
 theorem leafDist_anchor (dist : Nat → Rat) : ∀ (t : TTree), LeafAnchored dist t → ∀ i ∈ t.pts,
     ∃ p ∈ t.pts, leafDist t i = dist p
-  | .leaf _ _ lf, ⟨p, hp, hd⟩, i, hi => by
-    refine ⟨p, hp, ?_⟩
+  | .leaf _ _ es, ⟨_, hc⟩, i, hi => by
     simp only [TTree.pts] at hi
-    simp [leafDist, leafDist?, hi, hd]
+    obtain ⟨e, he, _, hd⟩ := entryDist?_some es i hi
+    obtain ⟨p, hp, hdp⟩ := hc e he
+    refine ⟨p, by simpa [TTree.pts] using mem_qpts.mpr ⟨e, he, hp⟩, ?_⟩
+    simp [leafDist, leafDist?, hd, hdp]
   | .node _ _ _ l r, ⟨hl, hr⟩, i, hi => by
     simp only [TTree.pts, List.mem_append] at hi ⊢
     by_cases h : i ∈ l.pts
@@ -66,17 +108,19 @@ theorem leafDist_anchor (dist : Nat → Rat) : ∀ (t : TTree), LeafAnchored dis
       exact ⟨p, Or.inr hp, by rw [leafDist_right l r i h, e]⟩
 
 theorem anchored_nonempty (dist : Nat → Rat) : ∀ (t : TTree), LeafAnchored dist t → LeavesNonempty t
-  | .leaf _ _ lf, ⟨p, hp, _⟩ => by
-    simp only [LeavesNonempty]; intro h; simp [h] at hp
+  | .leaf _ _ es, ⟨hne, hc⟩ => by
+    refine ⟨hne, fun e he h => ?_⟩
+    obtain ⟨p, hp, _⟩ := hc e he
+    simp [h] at hp
   | .node _ _ _ l r, ⟨hl, hr⟩ => ⟨anchored_nonempty dist l hl, anchored_nonempty dist r hr⟩
 
 /-- w.r.t. any function that agrees with the leaf distance on the points of `t`, the leaves are uniform -/
 theorem leafUniform_leafDist (f : Nat → Rat) : ∀ (t : TTree), t.pts.Nodup →
     (∀ i ∈ t.pts, f i = leafDist t i) → LeafUniform f t
-  | .leaf _ _ lf, _, h => by
-    intro p hp
-    have := h p (by simpa [TTree.pts] using hp)
-    simpa [leafDist, leafDist?, hp] using this
+  | .leaf _ _ es, hn, h => by
+    intro e he p hp
+    have := h p (by simpa [TTree.pts] using mem_qpts.mpr ⟨e, he, hp⟩)
+    simpa [leafDist, leafDist?, entryDist?_of_mem es (by simpa [TTree.pts] using hn) e he p hp] using this
   | .node _ _ _ l r, hn, h => by
     simp only [TTree.pts] at hn h
     have hd := List.nodup_append.mp hn
